@@ -129,9 +129,7 @@ def handle (line : String) : String :=
       -- `calculate_byte_len` of every primitive value vs the model
       let prims := elemsPrims tree
       if prims.length ≠ bls.length then "BAD-LINE" else
-      match (prims.zip bls).find? fun (p, bl) => p.2.2.calculateByteLen ≠ bl with
-      | some (p, bl) => s!"MODEL-DIFF calculate_byte_len tag={p.1.group},{p.1.elem} model={p.2.2.calculateByteLen} impl={bl}"
-      | none =>
+      let blDiff := (prims.zip bls).find? fun (p, bl) => p.2.2.calculateByteLen ≠ bl
       let defl := ts == "3"
       match judge syn defl .setUndefined tree a "default", judge syn defl .setUndefined tree b "options-set-undefined",
             judge syn defl .noChange tree c "options-no-change" with
@@ -139,6 +137,9 @@ def handle (line : String) : String :=
       | _, .error m, _ => m
       | _, _, .error m => m
       | .ok ka, .ok kb, .ok kc =>
+        match blDiff with
+        | some (p, bl) => s!"MODEL-DIFF calculate_byte_len tag={p.1.group},{p.1.elem} model={p.2.2.calculateByteLen} impl={bl}"
+        | none =>
         if defl ∧ ka ≠ "d" ∧ treeToks ≠ [] then s!"PROP-FAIL class=not-deflated call=default" else
         let triv := if prims.isEmpty ∧ elemsSeqTags tree = [] ∧ !elemsHasPix tree then "trivial-" else ""
         s!"ok {triv}ds-{ts}-{path}-d{elemsDepth tree}-n{min prims.length 6}-px{elemsHasPix tree}-x{elemsHasExplicit tree}-{ka}{kb}{kc}"
